@@ -806,6 +806,11 @@ Fixpoint find_index {A} (p : A -> bool) (l : list A) (i : nat) : option nat :=
   match l with [] => None | x :: r => if p x then Some i else find_index p r (S i) end.
 
 (* ------------------------------------------------------------------ final flush *)
+(* doHarvest's inactivity branch as seen by the final (blocking) harvest.  Before fix de635d6 this was [inactive]: an
+   application past the threshold was removed at shutdown together with what it held.  The branch is kept in
+   [flush_run] in this form so that the code's `!ph.Blocking && ...` reads off directly. *)
+Definition flush_inactive (a : appobj) (now : Z) : bool := false.
+
 (* CleanExit: every connected run is harvested completely, request by request, each waiting for its
    answer; a failed final request is given up (since the fix it is not handed to the stopped loop). *)
 Definition flush_run (outs : N -> cat -> outcome) (acc : proc * list out) (ra : N * nat) : proc * list out :=
@@ -814,7 +819,7 @@ Definition flush_run (outs : N -> cat -> outcome) (acc : proc * list out) (ra : 
   if Nat.leb (length (p_ahs s)) ahid then acc else      (* never the case: the run table only holds valid indices *)
   let ah := get_ah s ahid in
   let a := get_obj s (ah_app ah) in
-  if inactive a (p_now s) then
+  if flush_inactive a (p_now s) then
     (with_apps (shutdown_run s (ah_run ah)) (removeN (a_key a) (p_apps s)), o)
   else
     let e := ctx_of s ah 0 in
